@@ -77,6 +77,7 @@ var responseNames = []nameSpec{
 	{Name: "User-Agent", Vals: []string{"origin-agent"}, RuleVal: "probe/1.0"},
 	{Name: "Authorization", Vals: []string{"Bearer o"}, RuleVal: "Bearer rule"},
 	{Name: "X-Plain", Vals: []string{"p1", "p2"}, RuleVal: "by-rule"},
+	{Name: "X-Forwarder-Error", Vals: []string{"origin-side error"}, RuleVal: "by-rule"}, // (the proxy's own error responses carry it)
 }
 
 var connectNames = []nameSpec{
@@ -219,6 +220,7 @@ type envKey struct {
 	via                  string
 	mitm, upstream, cred bool
 	rules                string // binary: the flags
+	handler              bool   // rig: served through martian's http.Handler
 }
 
 type hopPool struct {
@@ -228,7 +230,7 @@ type hopPool struct {
 }
 
 func (p *hopPool) get(hc *hopCase) (*hopEnv, error) {
-	k := envKey{via: hc.Via, mitm: hc.MITM, upstream: hc.Upstream, cred: hc.Cred}
+	k := envKey{via: hc.Via, mitm: hc.MITM, upstream: hc.Upstream, cred: hc.Cred, handler: hc.Handler}
 	if hc.Via == "binary" {
 		k.rules = fmt.Sprint(hc.ReqRules, "\x00", hc.ConnRules, "\x00", hc.RespRules)
 	}
@@ -242,7 +244,7 @@ func (p *hopPool) get(hc *hopCase) (*hopEnv, error) {
 	if hc.Via == "binary" {
 		e, err = newBinaryEnv(p.ctx, hc.MITM, hc.Upstream, hc.Cred, hc.ReqRules, hc.ConnRules, hc.RespRules)
 	} else {
-		e, err = newRigEnv(p.ctx, hc.MITM, hc.Upstream, hc.Cred)
+		e, err = newRigEnv(p.ctx, hc.MITM, hc.Upstream, hc.Cred, hc.Handler)
 	}
 	if err != nil {
 		return nil, err
@@ -323,6 +325,50 @@ func rigCases(ctx *core.Ctx) map[envKey][]*hopCase {
 			}
 		}
 	}
+	// the response list on every kind of response the client can be sent (respKinds), in the four environments
+	for _, cf := range []struct{ mitm, upstream, handler bool }{{false, false, false}, {true, false, false}, {false, true, false}, {true, true, false},
+		{false, false, true}, {false, true, true}} {
+		k := envKey{via: "rig", mitm: cf.mitm, upstream: cf.upstream, handler: cf.handler}
+		for _, kind := range kindsFor(cf.mitm, cf.upstream) {
+			rk := respKinds[kind]
+			if cf.handler && (kind == "101" || kind == "timeout" || rk.model == "origin-header-only") {
+				continue // (net/http's server rewrites the head of a header-only response: Content-Type, Content-Length)
+			}
+			slow := 0
+			for _, s := range responseNames {
+				if cf.handler && (s.Name == "Content-Length" || s.Name == "Transfer-Encoding" || s.Name == "Trailer") {
+					continue // (net/http's server takes the framing fields of the handler's header at their word)
+				}
+				for li, rules := range ruleListsFor(s) {
+					variants := sentVariants(s)
+					if rk.local {
+						variants = variants[:1]
+					}
+					if ctx.Quick() {
+						if li < 7 && !r.Chance(25) || li >= 7 && !r.Chance(10) {
+							continue
+						}
+						variants = [][]rig.Field{core.Pick(r, variants)}
+					}
+					for _, sent := range variants {
+						if kind == "timeout" {
+							if slow++; slow > ctx.N(1, 6) {
+								continue
+							}
+						}
+						hc := &hopCase{Kind: "hop", Via: "rig", Side: "response", MITM: cf.mitm, Secure: cf.mitm && !rk.connect, Upstream: cf.upstream, Resp: kind, Handler: cf.handler}
+						setRules(hc, rules)
+						if rk.connect {
+							hc.ConnRules = rules // (connect rules touch no response either)
+						}
+						s.message(hc, sent)
+						shapeForKind(r, hc, s)
+						out[k] = append(out[k], hc)
+					}
+				}
+			}
+		}
+	}
 	return out
 }
 
@@ -378,6 +424,46 @@ func binaryCases(ctx *core.Ctx) map[envKey][]*hopCase {
 					s.message(hc, sent)
 					k := envKey{via: "binary", mitm: cf.mitm, upstream: cf.upstream, cred: cf.cred, rules: fmt.Sprint(i)}
 					out[k] = append(out[k], hc)
+				}
+			}
+		}
+		// the kinds of response (respKinds) through the same processes: every name for the kinds whose message the
+		// case writes, one case for the kinds the proxy generates itself
+		r := ctx.Rng.Sub()
+		type kconf struct{ mitm, upstream, cred, secure bool }
+		kconfs := []kconf{{true, false, true, false}, {true, false, true, true}, {false, true, false, false}}
+		if i == 0 || !ctx.Quick() {
+			kconfs = append(kconfs, kconf{true, true, false, true})
+		}
+		for _, cf := range kconfs {
+			k := envKey{via: "binary", mitm: cf.mitm, upstream: cf.upstream, cred: cf.cred, rules: fmt.Sprint(i)}
+			for _, kind := range kindsFor(cf.mitm, cf.upstream) {
+				rk := respKinds[kind]
+				if rk.connect && cf.secure {
+					continue
+				}
+				// (the binary redials a refused address with a back-off, and a response header timeout has to run out:
+				// about two seconds a case; the quick tier takes them through one process each)
+				if ctx.Quick() && (kind == "timeout" && (i != 0 || cf.secure) || kind == "refused" && i != 1) {
+					continue
+				}
+				for _, s := range responseNames {
+					if (rk.local || kind == "101") && s.Name != "X-Plain" {
+						continue
+					}
+					variants := sentVariants(s)
+					if rk.local {
+						variants = variants[:1]
+					} else if ctx.Quick() {
+						variants = [][]rig.Field{core.Pick(r, variants)}
+					}
+					for _, sent := range variants {
+						hc := &hopCase{Kind: "hop", Via: "binary", Side: "response", MITM: cf.mitm, Secure: cf.secure, Upstream: cf.upstream, Cred: cf.cred,
+							ReqRules: req, ConnRules: conn, RespRules: resp, Resp: kind}
+						s.message(hc, sent)
+						shapeForKind(r, hc, s)
+						out[k] = append(out[k], hc)
+					}
 				}
 			}
 		}
